@@ -39,8 +39,12 @@ type JoinCase struct {
 	Mix []bool `json:"mix"`
 }
 
-func (c JoinCase) program() string {
-	p := "fork (=> has(lv) => has(rv)) | " + c.Kind + " join on k=k"
+func (c JoinCase) program() string { return c.programWithLegs("", "") }
+
+// programWithLegs appends an operator (e.g. " | sort k") to the left and/or right leg of the fork, which is how a
+// query declares an order for one input of the join only.
+func (c JoinCase) programWithLegs(leftLeg, rightLeg string) string {
+	p := "fork (=> has(lv)" + leftLeg + " => has(rv)" + rightLeg + ") | " + c.Kind + " join on k=k"
 	switch c.Kind {
 	case "anti":
 	case "right":
@@ -281,6 +285,33 @@ func runJoinCase(c JoinCase) *vt.Outcome {
 		o.Fail = vt.Failf("C10/join/"+c.Kind+"/sort-spill-dependent", "%s: with sort.MemMaxBytes=16 the result differs: %s", prog, d)
 		return o
 	}
+	// One leg (or both, in the same or in opposite directions) ends in an explicit sort on the key: the compiler then
+	// knows an order for that input only and must insert its own sort on the other.  A sort drains its leg, so the
+	// fork back-pressure deadlock of the declared-sorted stream cannot occur here.  Descending leg sorts are left out
+	// when a key is null (C07's open finding desc-null-keys: the inserted sort and the join disagree on where nulls go).
+	legSorts := []string{"", " | sort k"}
+	if !hasNull {
+		legSorts = append(legSorts, " | sort -r k")
+	}
+	for _, ll := range legSorts {
+		for _, rl := range legSorts {
+			if ll == "" && rl == "" {
+				continue
+			}
+			p := c.programWithLegs(ll, rl)
+			ro := runOpts{batch: c.Batch}
+			out, err := runProgram(zctx, interleave(pl, pr, rev), p, ro)
+			if err != nil {
+				o.Fail = queryFailure("join with sorted legs", err)
+				return o
+			}
+			if d := oracle.SameMultiset(base, out); d != "" {
+				o.Fail = vt.Failf("C10/join/"+c.Kind+"/leg-sort-dependent", "%s gives a different result than %s on the same rows: %s", p, prog, d)
+				return o
+			}
+		}
+	}
+	o.Label("leg-sorted-variants")
 	// Really sorted and declared sorted inputs.  These runs build the operator with join.New, exactly as
 	// compiler/kernel does after the optimizer has set Join.LeftDir/RightDir from the declared order of the
 	// two parents: two separate sorted inputs, no sort inserted.  (Declaring the order on the ONE forked
@@ -315,7 +346,7 @@ var joinProp = &vt.Prop[JoinCase]{
 	Name: "TestJoin",
 	Rule: "case = left rows {k,lv,[x]} and right rows {k,rv} (every row has its key; key palettes int64-only / string-only / mixed incl. 1, 1(uint64), 1., typed nulls, named) + kind in {inner,left,right,anti} + batch size + permutations; " +
 		"both inputs travel in one stream split by `fork (=> has(lv) => has(rv)) | <kind> join on k=k hit:=rv` (right: hit:=lv).  Layer 1 (keys all int64 or all string, no nulls): output multiset = nested-loop join with the documented shape. " +
-		"Layer 2 (all cases): same multiset for permuted inputs, for sort.MemMaxBytes=16 (the join's inserted sorts spill), and for inputs really sorted asc/desc on k and declared so (operator built with join.New and both directions set, as the kernel does).  Non-trivial: some key with multiplicity >=2 on both sides.",
+		"Layer 2 (all cases): same multiset for permuted inputs, for sort.MemMaxBytes=16 (the join's inserted sorts spill), for every combination of an explicit `sort k` / `sort -r k` at the end of one or both fork legs (an order known to the compiler for one input only, or opposite orders; descending only without null keys), and for inputs really sorted asc/desc on k and declared so (operator built with join.New and both directions set, as the kernel does).  Non-trivial: some key with multiplicity >=2 on both sides.",
 	Gen: genJoinCase,
 	Run: runJoinCase,
 }
